@@ -1,0 +1,5 @@
+//go:build !verif
+
+package watcher
+
+func verifYield(point string) {}
